@@ -363,8 +363,9 @@ def build_cython_scratch(dest: Path, asan=False):
         cc = ["gcc", "-O2"]
     procs = []
     for m in mods:
-        srcs = [f"{m}.c"] + (["crc32c.c"] if m == "cutil" else [])
-        cmd = cc + ["-shared", "-fPIC", "-w", f"-I{pyinc}", "-I.", *srcs, "-o", f"{m}{suffix}"]
+        # as setup.py: crc32c.c is linked into cutil AND default_records; zlib for legacy crc32
+        srcs = [f"{m}.c"] + (["crc32c.c"] if m in ("cutil", "default_records") else [])
+        cmd = cc + ["-shared", "-fPIC", "-w", f"-I{pyinc}", "-I.", *srcs, "-o", f"{m}{suffix}", "-lz"]
         procs.append((m, subprocess.Popen(cmd, cwd=cdir, stdout=subprocess.PIPE, stderr=subprocess.STDOUT)))
     for m, p in procs:
         out, _ = p.communicate()
